@@ -16,6 +16,9 @@ use crate::util::*;
 use rssl::ir;
 use rssl_typer::verif::evaluate_constexpr;
 
+#[path = "c13_pos.rs"]
+pub mod pos;
+
 // ------------------------------------------------------------------------------------------
 // own tree (what the request says), independent of the ir types
 // ------------------------------------------------------------------------------------------
@@ -392,7 +395,9 @@ const OPS: &[(&str, ir::IntrinsicOp)] = &[
 /// enum 1 has underlying type uint, global 0 is a `static const`, `g` is a non-constant global
 pub const PRELUDE: &str = "enum E0 { E0A = 0, E0B = 1, E0C = 5, E0D = -1, E0M = 2147483647 };\n\
 enum E1 { E1A = 1, E1B = 32, E1M = 4294967295u };\n\
-static const int gI = 7;\nstatic int gN = 7;\n";
+static const int gI = 7;\nstatic int gN = 7;\n\
+namespace NS { static const int nI = 3; static const uint nU = 4u; enum EN { EN0, EN1, EN2 }; }\n\
+cbuffer CB0 { int cbM; }\nstruct GSt { int x; };\nstatic const GSt gS = { 3 };\nstatic const int gA[2] = { 1, 2 };\n";
 
 fn type_of_t(module: &mut ir::Module, t: &T) -> ir::TypeId {
     let sc = |m: &mut ir::Module, s| m.type_registry.register_type(ir::TypeLayer::Scalar(s));
@@ -573,7 +578,7 @@ fn same_kind(a: &K, b: &K) -> bool {
     std::mem::discriminant(a) == std::mem::discriminant(b)
 }
 
-fn cast_ref(t: &T, v: &K) -> Want {
+pub fn cast_ref(t: &T, v: &K) -> Want {
     let v = match v {
         K::Enum(_, inner) => (**inner).clone(),
         o => o.clone(),
@@ -885,7 +890,7 @@ pub fn eval_real(module: &ir::Module, e: &ir::Expression) -> Obs {
 }
 
 /// `file:line: message` with the file made relative to the repository whatever directory it was built from
-fn norm_panic(p: &str) -> String {
+pub fn norm_panic(p: &str) -> String {
     for root in ["/typer/src/", "/ir/src/", "/parser/src/", "/preprocess/src/", "/ast/src/", "/text/src/",
                  "/formatter/src/", "/hlsl/src/", "/msl/src/"] {
         if let Some(i) = p.find(root) {
@@ -981,19 +986,32 @@ pub fn judge(x: &X, obs: &Obs, from_typer: bool) -> String {
     }
 }
 
+/// compile a whole program to HLSL text (no pipeline mode), or `!error ...` / `!panic ...`
+pub fn emit_hlsl(src: &str) -> String {
+    emit_target(src, rssl::Target::HlslForDirectX)
+}
+
+pub fn emit_target(src: &str, target: rssl::Target) -> String {
+    let mut inc = MemFiles(vec![("main.rssl".to_string(), src.to_string())]);
+    let r = guard(|| rssl::compile(rssl::CompileArgs::new("main.rssl", &mut inc, target).no_pipeline_mode()));
+    match r {
+        Err(p) => format!("!panic {}", norm_panic(&p)),
+        Ok(Err(e)) => format!("!error {}", e),
+        Ok(Ok(ps)) => ps.into_iter().map(|p| String::from_utf8_lossy(&p.data).to_string()).collect::<Vec<_>>().join("\n"),
+    }
+}
+
 pub struct World {
     pub prelude: ir::Module,
 }
 
 impl World {
-    pub fn new() -> World {
+    pub fn new() -> Result<World, String> {
         let src = format!("{}void t() {{}}\n", PRELUDE);
-        match front_end_src(&src) {
-            Ok(m) => World { prelude: m },
-            Err(e) => {
-                eprintln!("C13: prelude rejected: {}", e.text());
-                std::process::exit(3);
-            }
+        match guard(|| front_end_src(&src)) {
+            Ok(Ok(m)) => Ok(World { prelude: m }),
+            Ok(Err(e)) => Err(format!("reject:{}", one_line(e.text()))),
+            Err(p) => Err(format!("panic:{}", norm_panic(&p))),
         }
     }
 
@@ -1023,6 +1041,48 @@ impl World {
             Some(e) => Ok((m, e)),
             None => Err("reject:shape:no expression statement".into()),
         }
+    }
+}
+
+/// static type of a source expression (modifiers included), found with the built-in `assert_type<T>(e)`, which
+/// compares type ids exactly.  Returns the class the enum model needs: `bool|int|uint|lit|enum<id>:<under>|other`, with
+/// a trailing `!` when the type is not the plain type of a literal of that value (const-qualified, or an enum).
+pub fn static_cls(w: &World, src: &str, x: &X) -> Option<String> {
+    let accepts = |ty: &str| -> bool {
+        let text = format!("{}void t() {{ assert_type<{}>({}); }}\n", PRELUDE, ty, src);
+        matches!(guard(|| front_end_src(&text)), Ok(Ok(_)))
+    };
+    const NAMED: &[(&str, &str)] = &[
+        ("int", "int"), ("uint", "uint"), ("bool", "bool"), ("E0", "enum0:int"), ("E1", "enum1:uint"), ("NS::EN", "enum2:int"),
+        ("float", "other"), ("half", "other"), ("double", "other"),
+    ];
+    for (ty, cls) in NAMED {
+        if accepts(ty) {
+            return Some(if cls.starts_with("enum") { format!("{}!", cls) } else { cls.to_string() });
+        }
+        if accepts(&format!("const {}", ty)) {
+            return Some(if *cls == "other" { cls.to_string() } else { format!("{}!", cls) });
+        }
+    }
+    // the literal types have no name
+    match reference(x) {
+        Want::Val(K::Lit(_)) | Want::ValOrNotConst(K::Lit(_)) => Some("lit".into()),
+        Want::Val(K::FLit(_)) => Some("other".into()),
+        _ => match x {
+            X::Lit(K::Lit(_)) => Some("lit".into()),
+            X::Op(_, _) | X::Cast(_, _) => {
+                // an operator on literals that has no value (1 / 0, 1 << 200): the operands tell
+                fn lit_typed(x: &X) -> bool {
+                    match x {
+                        X::Lit(K::Lit(_)) => true,
+                        X::Op(o, a) => !CMP_OPS.contains(&o.as_str()) && !a.is_empty() && a.iter().all(lit_typed),
+                        _ => false,
+                    }
+                }
+                if lit_typed(x) { Some("lit".into()) } else { None }
+            }
+            _ => None,
+        },
     }
 }
 
@@ -1156,21 +1216,17 @@ fn run_source(w: &World, src: &str, verbose: bool, out: &mut Out, hist: &mut His
 // ------------------------------------------------------------------------------------------
 // positions that demand a constant
 // ------------------------------------------------------------------------------------------
-pub const POSITIONS: &[&str] = &[
-    "array", "enum", "enumnext", "case", "template", "constint", "constuint", "localconst", "numthreads", "unroll",
-    "bindgroup", "pipelineprop", "assert",
-];
-
-fn err_kind(e: &str) -> String {
+pub fn err_kind(e: &str) -> String {
     // "reject:type:<text>" -> a short stable label
     let t = e.splitn(3, ':').nth(2).unwrap_or(e);
     let t = t.split(": error: ").nth(1).unwrap_or(t);
+    let t = t.strip_prefix("error: ").unwrap_or(t);
     let words: Vec<&str> = t.split_whitespace().take(5).collect();
     words.join(" ").chars().filter(|c| c.is_ascii_alphabetic() || *c == ' ').collect()
 }
 
 /// integer view used to compare values observed at a position with the reference value
-fn as_integer(k: &K) -> Option<i128> {
+pub fn as_integer(k: &K) -> Option<i128> {
     match k {
         K::Bool(b) => Some(*b as i128),
         K::Lit(v) => Some(*v),
@@ -1180,264 +1236,6 @@ fn as_integer(k: &K) -> Option<i128> {
         K::U64(v) => Some(*v as i128),
         K::Enum(_, inner) => as_integer(inner),
         _ => None,
-    }
-}
-
-/// place `src` in a constant-demanding position of a small program; observe what the compiler recorded
-fn observe_position(pos: &str, src: &str) -> Result<String, String> {
-    let text = match pos {
-        "array" => format!("{}float pa[{}];\n", PRELUDE, src),
-        "enum" => format!("{}enum PE {{ PV = {} }};\n", PRELUDE, src),
-        "enumnext" => format!("{}enum PE {{ PW = {}, PV }};\n", PRELUDE, src),
-        "case" => format!("{}void t() {{ switch (0) {{ case {}: break; }} }}\n", PRELUDE, src),
-        "template" => format!(
-            "{}template<uint N> uint tf() {{ return N; }}\nvoid t() {{ tf<{}>(); }}\n",
-            PRELUDE, src
-        ),
-        "constint" => format!("{}static const int pc = {};\n", PRELUDE, src),
-        "constuint" => format!("{}static const uint pc = {};\n", PRELUDE, src),
-        "localconst" => format!("{}void t() {{ const int pc = {}; }}\n", PRELUDE, src),
-        "unroll" => format!(
-            "{}void t() {{ [unroll({})] for (int i = 0; i < 2; ++i) {{}} }}\n",
-            PRELUDE, src
-        ),
-        "bindgroup" => format!("{}[[rssl::bind_group({})]] Texture2D<float4> ptx;\n", PRELUDE, src),
-        "pipelineprop" => format!(
-            "{}[numthreads(1, 1, 1)] void main() {{}}\nPipeline PP {{ ComputeShader = main; DefaultBindGroup = {}; }}\n",
-            PRELUDE, src
-        ),
-        "numthreads" => format!(
-            "{}[numthreads({}, 1, 1)] void main() {{}}\nPipeline PP {{ ComputeShader = main; }}\n",
-            PRELUDE, src
-        ),
-        _ => return Err("SKIP:unknown position".into()),
-    };
-    let m = match guard(|| front_end_src(&text)) {
-        Ok(Ok(m)) => m,
-        Ok(Err(e)) => {
-            return Ok(format!("reject:{}", err_kind(&format!("reject:{}:{}", e.stage(), e.text()))));
-        }
-        Err(p) => return Ok(format!("panic:{}", norm_panic(&p))),
-    };
-    Ok(match pos {
-        "array" => {
-            let g = m.global_registry.iter().find(|g| g.name.node == "pa");
-            match g.map(|g| m.type_registry.get_type_layer(m.type_registry.remove_modifier(g.type_id))) {
-                Some(ir::TypeLayer::Array(_, Some(n))) => format!("len:{}", n),
-                other => format!("shape:{:?}", other),
-            }
-        }
-        "enum" | "enumnext" => {
-            let mut r = "shape:no enum value".to_string();
-            for i in 0..m.enum_registry.get_enum_count() {
-                for vid in m.enum_registry.get_values(ir::EnumId(i)) {
-                    let v = m.enum_registry.get_enum_value(*vid);
-                    if v.name.node == "PV" {
-                        r = format!("val:{}", show_k(&k_of_const(&v.value)));
-                    }
-                }
-            }
-            r
-        }
-        "case" => {
-            let mut r = "shape:no case label".to_string();
-            for id in m.function_registry.iter() {
-                if m.function_registry.get_function_name(id) != "t" {
-                    continue;
-                }
-                if let Some(imp) = m.function_registry.get_function_implementation(id) {
-                    for st in &imp.scope_block.0 {
-                        if let ir::StatementKind::Switch(_, block) = &st.kind {
-                            for inner in &block.0 {
-                                if let ir::StatementKind::CaseLabel(c) = &inner.kind {
-                                    r = format!("val:{}", show_k(&k_of_const(c)));
-                                }
-                            }
-                        }
-                    }
-                }
-            }
-            r
-        }
-        "template" => {
-            let mut r = "shape:no instantiation".to_string();
-            for id in m.function_registry.iter() {
-                if let Some(data) = m.function_registry.get_template_instantiation_data(id) {
-                    if let Some(ir::TypeOrConstant::Constant(c)) = data.template_args.first() {
-                        r = format!("val:{}", show_k(&k_of_const(&c.clone().unrestrict())));
-                    }
-                }
-            }
-            r
-        }
-        "constint" | "constuint" => {
-            match m.global_registry.iter().find(|g| g.name.node == "pc") {
-                Some(g) => match &g.constexpr_value {
-                    Some(c) => format!("val:{}", show_k(&k_of_const(c))),
-                    None => "notconst".to_string(),
-                },
-                None => "shape:no global".to_string(),
-            }
-        }
-        "localconst" => {
-            let mut r = "shape:no local".to_string();
-            for id in m.variable_registry.iter() {
-                let v = m.variable_registry.get_local_variable(id);
-                if v.name.node == "pc" {
-                    r = match &v.constexpr_value {
-                        Some(c) => format!("val:{}", show_k(&k_of_const(c))),
-                        None => "notconst".to_string(),
-                    };
-                }
-            }
-            r
-        }
-        "unroll" => {
-            let mut r = "shape:no unroll attribute".to_string();
-            for id in m.function_registry.iter() {
-                if m.function_registry.get_function_name(id) != "t" {
-                    continue;
-                }
-                if let Some(imp) = m.function_registry.get_function_implementation(id) {
-                    for st in &imp.scope_block.0 {
-                        for a in &st.attributes {
-                            if let ir::StatementAttribute::Unroll(Some(n)) = a {
-                                r = format!("count:{}", n);
-                            }
-                        }
-                    }
-                }
-            }
-            r
-        }
-        "bindgroup" => match m.global_registry.iter().find(|g| g.name.node == "ptx") {
-            Some(g) => match g.lang_slot.set {
-                Some(n) => format!("group:{}", n),
-                None => "shape:no group".to_string(),
-            },
-            None => "shape:no global".to_string(),
-        },
-        "pipelineprop" => match m.pipelines.first() {
-            Some(p) => format!("group:{}", p.default_bind_group_index),
-            None => "shape:no pipeline".to_string(),
-        },
-        "numthreads" => match m.pipelines.first().and_then(|p| p.stages.first()) {
-            Some(st) => match st.thread_group_size {
-                Some((x, _, _)) => format!("threads:{}", x),
-                None => "shape:no thread group size".to_string(),
-            },
-            None => "shape:no pipeline".to_string(),
-        },
-        _ => unreachable!(),
-    })
-}
-
-/// what the property requires at the position, given the reference value of the expression itself
-fn judge_position(pos: &str, want: &Want, obs: &str) -> String {
-    if obs.starts_with("panic:") {
-        return format!("FAIL:panic {}", &obs[6..]);
-    }
-    if obs.starts_with("shape:") {
-        return format!("SKIP:harness could not observe the position ({})", obs);
-    }
-    let rejected = obs.starts_with("reject:") || obs == "notconst";
-    let (val, soft) = match want {
-        Want::Val(k) => (k.clone(), false),
-        Want::ValOrNotConst(k) => (k.clone(), true),
-        Want::NotConst => {
-            return if rejected {
-                "ok".into()
-            } else {
-                format!("FAIL:{} accepted an expression that has no constant value: {}", pos, obs)
-            };
-        }
-        Want::Unspecified(_) => return "ok".into(),
-    };
-    let iv = as_integer(&val);
-    let observed_int = |prefix: &str| -> Option<i128> {
-        obs.strip_prefix(prefix)
-            .and_then(|r| if prefix == "val:" { parse_k(r).and_then(|k| as_integer(&k)) } else { r.parse().ok() })
-    };
-    let fail = |expected: String| format!("FAIL:{} recorded {} for an expression whose value is {} (expected {})", pos, obs, show_k(&val), expected);
-    match pos {
-        "array" | "numthreads" | "unroll" | "bindgroup" | "pipelineprop" => {
-            let prefix = match pos {
-                "array" => "len:",
-                "numthreads" => "threads:",
-                "unroll" => "count:",
-                _ => "group:",
-            };
-            if pos != "array" && matches!(val, K::Enum(_, _)) {
-                // whether an enum-typed thread count is admissible is a typing question
-                return "ok".into();
-            }
-            match iv {
-                None => "ok".into(), // non-integer sizes: typing question, not a value question
-                Some(v) => {
-                    let max = if pos == "array" || pos == "unroll" { u64::MAX as i128 } else { u32::MAX as i128 };
-                    let min = if pos == "array" { 1 } else { 0 };
-                    if v >= min && v <= max {
-                        if rejected {
-                            if soft { "ok".into() } else { fail(format!("{}{}", prefix, v)) }
-                        } else if observed_int(prefix) == Some(v) {
-                            "ok".into()
-                        } else {
-                            fail(format!("{}{}", prefix, v))
-                        }
-                    } else if rejected {
-                        "ok".into()
-                    } else {
-                        fail("a rejection: the value is not a valid size".into())
-                    }
-                }
-            }
-        }
-        "enum" | "enumnext" | "case" | "template" => match iv {
-            None => "ok".into(),
-            Some(v) => {
-                // the enumerator after `= v` has the value v + 1; when v + 1 does not fit the type of the
-                // previous enumerator a rejection is as good as the widened value
-                let succ_overflows = pos == "enumnext"
-                    && match &val {
-                        K::I32(x) => *x == i32::MAX,
-                        K::U32(x) => *x == u32::MAX,
-                        K::Enum(_, inner) => matches!(**inner, K::I32(i32::MAX) | K::U32(u32::MAX)),
-                        _ => false,
-                    };
-                if succ_overflows && rejected {
-                    return "ok".into();
-                }
-                let v = if pos == "enumnext" { v + 1 } else { v };
-                if rejected {
-                    // an enum value must fit int or uint, a uint template parameter takes 32-bit values
-                    let representable = v >= i32::MIN as i128 && v <= u32::MAX as i128;
-                    if soft || !representable || pos == "template" { "ok".into() } else { fail(format!("val {}", v)) }
-                } else {
-                    match observed_int("val:") {
-                        Some(o) if o == v => "ok".into(),
-                        // a conversion to the 32-bit type of the position is the only other admissible value
-                        Some(o) if pos == "template" && (o - v).rem_euclid(1i128 << 32) == 0 => "ok".into(),
-                        _ => fail(format!("val {}", v)),
-                    }
-                }
-            }
-        },
-        "constint" | "constuint" | "localconst" => {
-            let t = if pos == "constuint" { T::UInt } else { T::Int };
-            match cast_ref(&t, &val) {
-                Want::Val(k) => {
-                    if rejected {
-                        if soft || obs.starts_with("reject:") { "ok".into() } else { fail(show_k(&k)) }
-                    } else if obs == format!("val:{}", show_k(&k)) {
-                        "ok".into()
-                    } else {
-                        fail(show_k(&k))
-                    }
-                }
-                _ => "ok".into(),
-            }
-        }
-        _ => "ok".into(),
     }
 }
 
@@ -1476,7 +1274,7 @@ fn run_position(w: &World, pos: &str, src: &str, out: &mut Out, hist: &mut Hist)
     let x = x_of_expr(&m, &e);
     let want = reference(&x);
     let req = format!("C13.pos\t{}\t{}", pos, src);
-    if pos == "assert" {
+    if pos == "assert" || pos == "assertr" {
         let val = match &want {
             Want::Val(k) => k.clone(),
             _ => {
@@ -1491,7 +1289,12 @@ fn run_position(w: &World, pos: &str, src: &str, out: &mut Out, hist: &mut Hist)
                 return;
             }
         };
-        let text = format!("{}void t() {{ assert_eval<{}>({}, {}); }}\n", PRELUDE, ty, src, expected);
+        // `assertr`: the operands the other way round (the second operand is evaluated by its own call)
+        let text = if pos == "assert" {
+            format!("{}void t() {{ assert_eval<{}>({}, {}); }}\n", PRELUDE, ty, src, expected)
+        } else {
+            format!("{}void t() {{ assert_eval<{}>({}, {}); }}\n", PRELUDE, ty, expected, src)
+        };
         let obs = match guard(|| front_end_src(&text)) {
             Ok(Ok(_)) => "accept".to_string(),
             Ok(Err(e)) => format!("reject:{}", err_kind(&format!("reject:{}:{}", e.stage(), e.text()))),
@@ -1511,17 +1314,123 @@ fn run_position(w: &World, pos: &str, src: &str, out: &mut Out, hist: &mut Hist)
         out.case(&format!("{}\t{}", req, expected), &obs, &verdict);
         return;
     }
-    let obs = match observe_position(pos, src) {
-        Ok(o) => o,
-        Err(e) => {
-            out.case(&req, "unobservable", &e);
+    let site = match pos::site(pos) {
+        Some(s) => s,
+        None => {
+            out.case(&req, "unobservable", "SKIP:unknown position");
             return;
         }
     };
-    let verdict = judge_position(pos, &want, &obs);
+    let (obs, module) = pos::observe(site, src);
+    // what the model of the position is given: the IR of the expression the position evaluates
+    let aux: Option<String> = match pos::model_input(site) {
+        pos::ModelInput::Hole => Some(show_x(&x)),
+        pos::ModelInput::EnumMember => static_cls(w, src, &x).map(|c| format!("{} {}", c, show_x(&x))),
+        pos::ModelInput::Initialiser => module.as_ref().and_then(|m| pos::initialiser_tree(m, &site.look)).map(|t| show_x(&t)),
+        pos::ModelInput::None => None,
+    };
+    let req = match &aux {
+        Some(a) => format!("{}\t{}", req, a),
+        None => req,
+    };
+    let want_of = |e: &str| -> Option<Want> { w.typed(e).ok().map(|(m, e)| reference(&x_of_expr(&m, &e))) };
+    let mut verdict = pos::judge_site(site, src, &want, &want_of, &obs);
     hist.add(&format!("{}:{}", pos, obs.split(':').next().unwrap_or("")));
+    if verdict == "ok" {
+        // where the compiler prints the value, the printed number must be the same value
+        match pos::judge_emission(site, src, &want, &obs) {
+            Some(v) if v == "emit-ok" => hist.add(&format!("{}:emitted", pos)),
+            Some(v) => verdict = v,
+            None => {}
+        }
+    }
     let shown = if obs.starts_with("panic:") { format!("panic:{}", panic_msg(&obs[6..])) } else { obs.clone() };
     out.case(&req, &shown, &verdict);
+}
+
+fn run_enum(w: &World, members: &str, out: &mut Out, hist: &mut Hist) {
+    let ms: Vec<String> = members.split(" ; ").map(|s| s.trim().to_string()).collect();
+    let obs = pos::observe_enum(&ms);
+    let want_of = |e: &str| -> Option<Want> { w.typed(e).ok().map(|(m, e)| reference(&x_of_expr(&m, &e))) };
+    let mut standalone = Vec::new();
+    let verdict = pos::judge_enum(&ms, &want_of, &obs, &mut standalone);
+    // input of the Lean model of the definition: per enumerator `-` or `<static type class> <earlier enumerators it
+    // refers to> <IR>` (earlier enumerators appear in the IR as the literals the type checker inlines)
+    let mut aux = Vec::new();
+    if standalone.len() == ms.len() {
+        for (m, sa) in ms.iter().zip(&standalone) {
+            if sa == "-" {
+                aux.push("-".to_string());
+                continue;
+            }
+            let refs: Vec<String> = (0..ms.len()).filter(|k| m.contains(&format!("${}", k))).map(|k| k.to_string()).collect();
+            match w.typed(sa) {
+                Ok((md, e)) => {
+                    let x = x_of_expr(&md, &e);
+                    match static_cls(w, sa, &x) {
+                        Some(cls) => aux.push(format!("{} {} {}", cls, if refs.is_empty() { "-".to_string() } else { refs.join(",") }, show_x(&x))),
+                        None => break,
+                    }
+                }
+                Err(_) => break,
+            }
+        }
+    }
+    let req = if aux.len() == ms.len() {
+        format!("C13.enum\t{}\t{}", ms.join(" ; "), aux.join(" | "))
+    } else {
+        format!("C13.enum\t{}", ms.join(" ; "))
+    };
+    hist.add(&format!("enum:{}", obs.split(|c| c == ':' || c == ' ').take(2).collect::<Vec<_>>().join(":")));
+    hist.add(&format!("enum-members:{}", ms.len()));
+    hist.add(&format!("enum-implicit:{}", ms.iter().filter(|m| *m == "-").count()));
+    hist.add(&format!("enum-references:{}", ms.iter().filter(|m| m.contains('$')).count()));
+    let shown = if obs.starts_with("panic:") { format!("panic:{}", panic_msg(&obs[6..])) } else { obs.clone() };
+    out.case(&req, &shown, &verdict);
+    if aux.len() == ms.len() {
+        // the hypotheses of the enum theorems are claimed of every definition whose initialisers the front end typed
+        out.case(&format!("C13.enumhyp\t{}\t{}", ms.join(" ; "), aux.join(" | ")), "wf=1 ok=1", "ok");
+    }
+}
+
+/// members of a random enum definition
+fn gen_enum(rng: &mut Rng) -> Vec<String> {
+    let n = rng.range(1, 6) as usize;
+    let small: &[&str] = &["0", "1", "2", "5", "-1", "-7", "(int)3", "(int)-2", "4u", "0u", "true", "false", "E0C", "E1B", "31", "100",
+                           "-2147483648", "-2147483649", "2147483647", "2147483648", "4294967295", "4294967296", "4294967295u",
+                           "(int)2147483647", "(int)-2147483648", "E0M", "E1M"];
+    let mut ms = Vec::new();
+    for i in 0..n {
+        if rng.chance(2, 5) {
+            ms.push("-".to_string());
+            continue;
+        }
+        let base = if rng.chance(3, 5) {
+            rng.pick(small).to_string()
+        } else {
+            let ty = *rng.pick(&["lit", "int", "uint", "bool", "E0", "E1", "lit", "float"]);
+            src_tree(ty, rng.range(0, 2) as u32, rng)
+        };
+        let e = if i > 0 && rng.chance(2, 5) {
+            let k = rng.below(i as u64);
+            match rng.below(7) {
+                0 => format!("${}", k),
+                1 => format!("${} + 1", k),
+                2 => format!("-${}", k),
+                3 => format!("${} | ({})", k, base),
+                4 => format!("(int)${} * 2", k),
+                5 => format!("({}) - ${}", base, k),
+                _ => format!("${} << 1", k),
+            }
+        } else if rng.chance(1, 40) {
+            // a reference to itself or a later enumerator
+            format!("${}", rng.range(i as i64, n as i64 - 1))
+        } else {
+            base
+        };
+        ms.push(e);
+    }
+    ms
 }
 
 // ------------------------------------------------------------------------------------------
@@ -1728,21 +1637,25 @@ fn wild_tree(d: u32, rng: &mut Rng) -> X {
 // ---- source level ----
 const SRC_ATOMS: &[(&str, &[&str])] = &[
     ("bool", &["true", "false"]),
-    ("lit", &["0", "1", "2", "5", "31", "32", "33", "127", "128", "2147483647", "2147483648",
+    ("lit", &["0", "1", "2", "3", "4", "255", "256", "5", "31", "32", "33", "127", "128", "2147483647", "2147483648",
               "4294967295", "4294967296", "9223372036854775807", "9223372036854775808",
-              "18446744073709551615", "0x7fffffff", "0xFFFFFFFC", "017"]),
+              "18446744073709551615", "0x7fffffff", "0xFFFFFFFC", "017", "-1", "-2147483648", "-2147483649",
+              "-4294967295", "-4294967296", "-9223372036854775808", "-18446744073709551615", "18446744073709551616"]),
     ("int", &["(int)0", "(int)1", "(int)-1", "(int)31", "(int)32", "(int)2147483647",
-              "(int)-2147483648", "(int)46341", "gI", "(int)0xffffffff", "(int)5"]),
+              "(int)-2147483648", "(int)46341", "gI", "(int)0xffffffff", "(int)5", "(int)2", "(int)4", "(int)255",
+              "(int)256", "NS::nI", "gN", "min(1, 2)", "(true ? 1 : 2)", "int(3)", "int2(1, 2).x", "cbM", "gS.x", "gA[1]",
+              "(1, 2)"]),
     ("uint", &["0u", "1u", "2u", "31u", "32u", "33u", "2147483647u", "2147483648u", "4294967295u",
-               "65536u", "(uint)-1"]),
+               "65536u", "(uint)-1", "3u", "4u", "5u", "255u", "256u", "sizeof(int)", "sizeof(half)", "sizeof(double)",
+               "sizeof(E1)", "sizeof(bool)", "sizeof(float4)", "NS::nU"]),
     ("float", &["0.0f", "1.0f", "0.5f", "1.5f", "3e9f", "2147483648.0f", "2147483520.0f",
                 "4294967296.0f", "1e10f", "1e-10f", "3.4028235e38f", "16777217.0f", "1e39f"]),
     ("half", &["0.0h", "1.0h", "65504.0h", "100000.0h", "0.1h"]),
     ("double", &["0.0L", "1.0L", "3e9L", "1e300L", "4294967295.5L", "2147483647.5L", "0.5L",
                  "1e-320L", "16777217.0L", "3.4028235677973366e38L"]),
     ("flit", &["0.0", "1.5", "3e9", "1e300", "0.1", "2147483648.5", "4294967295.9"]),
-    ("E0", &["E0A", "E0B", "E0C", "E0D", "E0M", "(E0)7"]),
-    ("E1", &["E1A", "E1B", "E1M", "(E1)0"]),
+    ("E0", &["E0A", "E0B", "E0C", "E0D", "E0M", "(E0)7", "E0::E0C", "(E0)2", "NS::EN1"]),
+    ("E1", &["E1A", "E1B", "E1M", "(E1)0", "E1::E1A", "(E1)3u"]),
 ];
 const SRC_TYPES: &[&str] = &["bool", "lit", "int", "uint", "float", "half", "double", "flit", "E0", "E1"];
 const SRC_BIN: &[&str] = &["+", "-", "*", "/", "%", "<<", ">>", "&", "|", "^"];
@@ -1811,13 +1724,37 @@ fn src_tree(ty: &str, d: u32, rng: &mut Rng) -> String {
 
 pub fn run(args: &Args, out: &mut Out) {
     let mut hist = Hist::default();
-    let w = World::new();
+    let w = match World::new() {
+        Ok(w) => w,
+        Err(e) => {
+            // the fixed declarations are themselves a boundary-value input: two enums whose enumerators span exactly the
+            // int and the uint range, constants in a namespace. They are valid; a rejection is a failure of the property.
+            out.case(
+                &format!("C13.prelude\t{}", one_line(PRELUDE)),
+                &e,
+                &format!("FAIL:the boundary-value declarations every request is interpreted against are not accepted: {}", e),
+            );
+            out.stat("{\"mode\":\"prelude rejected\"}");
+            return;
+        }
+    };
     if let Some(lines) = args.request_lines() {
         for line in lines {
             let f: Vec<&str> = line.split('\t').collect();
             match f.as_slice() {
                 ["C13.src", src] => run_source(&w, src, true, out, &mut hist),
+                ["C13.dump", src] => {
+                    // probing aid (not part of any check): HLSL text the compiler emits for a whole program
+                    let text = emit_hlsl(src);
+                    out.case(&line, &one_line(&text), "SKIP:probe");
+                }
+                ["C13.dumpmsl", src] => {
+                    let text = emit_target(src, rssl::Target::Msl);
+                    out.case(&line, &one_line(&text), "SKIP:probe");
+                }
                 ["C13.pos", pos, src, ..] => run_position(&w, pos, src, out, &mut hist),
+                ["C13.enum", members, ..] => run_enum(&w, members, out, &mut hist),
+                ["C13.enumhyp", members, ..] => run_enum(&w, members, out, &mut hist),
                 ["C13.hyp", _tree, rest @ ..] => {
                     if let Some(src) = rest.first().and_then(|s| s.strip_prefix("src:")) {
                         run_source(&w, src, true, out, &mut hist)
@@ -1914,15 +1851,35 @@ pub fn run(args: &Args, out: &mut Out) {
         let src = src_tree(ty, d, &mut rng);
         run_source(&w, &src, false, out, &mut typed);
     }
-    // (5) the same kind of source expressions in every position that demands a constant
+    // (5) every position that demands a constant: (a) every boundary atom of every type in every position,
+    //     (b) the same kind of source trees as stream (4)
     let mut posh = Hist::default();
-    for _ in 0..120 * scale {
-        let ty = *rng.pick(&["lit", "int", "uint", "bool", "E0", "E1", "lit", "int", "uint", "float", "double"]);
-        let d = rng.range(0, 4) as u32;
-        let src = src_tree(ty, d, &mut rng);
-        for pos in POSITIONS {
-            run_position(&w, pos, &src, out, &mut posh);
+    let all_sites = |src: &str, out: &mut Out, posh: &mut Hist| {
+        for site in pos::SITES {
+            run_position(&w, site.name, src, out, posh);
         }
+        run_position(&w, "assert", src, out, posh);
+        run_position(&w, "assertr", src, out, posh);
+    };
+    for (_, atoms) in SRC_ATOMS {
+        for a in atoms.iter() {
+            // quick: a seeded half of the atoms (all sites each); thorough: all
+            if !thorough && rng.below(2) != 0 {
+                continue;
+            }
+            all_sites(a, out, &mut posh);
+        }
+    }
+    for _ in 0..70 * scale {
+        let ty = *rng.pick(&["lit", "int", "uint", "bool", "E0", "E1", "lit", "int", "uint", "float", "double", "flit", "half"]);
+        let d = rng.range(1, 4) as u32;
+        let src = src_tree(ty, d, &mut rng);
+        all_sites(&src, out, &mut posh);
+    }
+    // (6) whole enum definitions
+    for _ in 0..400 * scale {
+        let ms = gen_enum(&mut rng);
+        run_enum(&w, &ms.join(" ; "), out, &mut posh);
     }
     out.stat(&format!("{{\"positions\":{}}}", posh.json()));
     out.stat(&format!(
